@@ -257,6 +257,25 @@ def _locate_read(ctx):
     if yvar is None or mvar is None:
         raise shape_error('cannot find the stores to .year / .month in readUnixTime', func.loc())
     loops = [s for s in body if isinstance(s, (ast.For, ast.While))]
+    # a year search written as a bounded for loop: it must at least reach the last year the property speaks about
+    for l in loops:
+        if isinstance(l, ast.For) and isinstance(l.target, ast.Name) and l.target.id == yvar:
+            wq = Walker(func, loop_mode='skip')
+            r = wq.range_info(l.iter, State())
+            hi = None
+            if r is not None and isinstance(r[1], Rat):
+                v = r[1]
+                for a_ in list(v.atoms()):
+                    if a_.endswith('UNIX_BASE_YEAR'):
+                        v = v.subst(a_, Rat.const(ast.literal_eval(_class_const(ctx, 'UNIX_BASE_YEAR'))))
+                if v.isconst():
+                    hi = int(v.constval())
+            if hi is not None and hi < 2100:
+                ctx.violation('C03.G', func, 'the year search covers every year up to 2099 (a bounded search must not run out silently)',
+                              {'years searched': 'up to %d' % (hi - 1), 'first year decoded wrongly': hi,
+                               'why': 'when the loop runs out the year variable keeps its last value while the seconds of all searched years were already consumed: '
+                                      'the remainder handed to the month step is too large (month 13)'}, node=l, key='year-bound')
+                raise shape_error('year loop is a bounded for loop (reported above); the greedy analysis does not apply', func.loc(l))
     yl = [l for l in loops if yvar in names_stored(l.body)]
     ml = [l for l in loops if mvar in names_stored(l.body)]
     if len(yl) != 1 or len(ml) != 1 or yl[0] is ml[0]:
@@ -744,17 +763,47 @@ def rule_A(ctx):
         w = Walker(f, loop_mode='skip')
         outs = list(w.run(body_nodocstring(f), State()))
         rets = [o for o in outs if o.kind == 'return']
-        if len(rets) != 1:
-            raise shape_error('%s is not single-path' % name, f.loc())
+        if not rets:
+            raise shape_error('%s has no return path' % name, f.loc())
         nb = f.params[1]
-        calls = [e for e in rets[0].state.events if e.kind == 'call' and e.name == 'readUnixTime']
-        good = False
-        arg = None
-        if calls and isinstance(rets[0].value, Rat) and rets[0].value.single_atom() == calls[-1].value:
-            arg = calls[-1].args[0]
-            good = isinstance(arg, Rat) and w.rel.is_zero(arg - Rat.atom('self.toAbsTime()') - Rat.atom(nb) * Rat.const(u))
-        ctx.check(good, 'C03.A', f, '%s(nb) returns readUnixTime(toAbsTime() + nb*%d)' % (name, u),
-                  witness={'argument of readUnixTime': repr(arg), 'returned': repr(rets[0].value)}, node=f.node, key=name)
+        n_main = 0
+        for ro in rets:
+            calls = [e for e in ro.state.events if e.kind == 'call' and e.name == 'readUnixTime']
+            pathtxt = [repr(c) for c, _ in ro.state.conds]
+            if calls and isinstance(ro.value, Rat) and ro.value.single_atom() == calls[-1].value:
+                n_main += 1
+                arg = calls[-1].args[0]
+                good = isinstance(arg, Rat) and w.rel.is_zero(arg - Rat.atom('self.toAbsTime()') - Rat.atom(nb) * Rat.const(u))
+                ctx.check(good, 'C03.A', f, '%s(nb) returns readUnixTime(toAbsTime() + nb*%d)' % (name, u),
+                          witness={'argument of readUnixTime': repr(arg), 'returned': repr(ro.value), 'path': pathtxt}, node=f.node, key=name)
+                continue
+            # a path that edits a field directly: the field must provably stay inside its range
+            fields = {'sec': 60, 'min': 60, 'hour': 24}
+            sts = [e for e in ro.state.events if e.kind == 'store' and e.index in fields]
+            if len(sts) != 1 or not isinstance(sts[0].value, Rat):
+                raise shape_error('%s: a return path neither converts through seconds nor edits one field' % name, f.loc(ro.node))
+            e = sts[0]
+            fld, lim = e.index, fields[e.index]
+            cur = Rat.atom('self.%s' % fld)
+            newv = cur + e.value if e.aug == 'Add' else e.value
+            cjs = [cj for c, _ in ro.state.conds for cj in c.conjuncts() if cj.kind == 'cmp' and isinstance(cj.a, Rat) and isinstance(cj.b, Rat)]
+            upper = any((cj.op == '<' and w.rel.is_zero((cj.b - cj.a) - (Rat.const(lim) - newv))) or
+                        (cj.op == '<=' and w.rel.is_zero((cj.b - cj.a) - (Rat.const(lim - 1) - newv))) for cj in cjs)
+            lower = any((cj.op == '<=' and w.rel.is_zero((cj.b - cj.a) - newv)) or (cj.op == '<=' and w.rel.is_zero((cj.b - cj.a) - (newv - cur))) for cj in cjs)
+            ctx.check(upper and lower, 'C03.A', f,
+                      '%s: a shortcut that edits the %s field keeps it inside 0..%d (otherwise the carry into the next field is lost)' % (name, fld, lim - 1),
+                      witness={'new value of the field': vr_(newv), 'guards of the shortcut': pathtxt,
+                               'value reached': '%s = %d is allowed by the guards' % (vr_(newv), lim) if not upper else 'a negative value is allowed by the guards',
+                               'why': 'e.g. 23:59:59 + 1 s must become 00:00:00 of the next day, not 23:59:60'}, node=e.node, key=name + ':shortcut')
+        if n_main == 0:
+            raise shape_error('%s: no path converts through toAbsTime / readUnixTime' % name, f.loc())
+
+
+def vr_(v):
+    if isinstance(v, Rat):
+        a = v.single_atom()
+        return a if a is not None else repr(v)
+    return repr(v)
 
 
 RULES = [
